@@ -303,10 +303,10 @@ def main(run):
     run.add("states", res2.distinct)
     run.add("transitions", res2.generated)
     verdicts = {}
-    for line in res2.printed:
-        if line.startswith('<<"V"'):
-            v = parse_value(line)
-            verdicts[v[1]] = (v[2], v[3])
+    from ..tlc import extract_tuples
+
+    for v in extract_tuples(res2.out, "V"):
+        verdicts[v[1]] = (v[2], v[3])
     nontriv = 0
     for t, m in zip(traces, meta):
         if t["id"] not in verdicts:
